@@ -75,10 +75,35 @@ class Res:
         self.ctx, self.ix, self.cls, self.fn = ctx, ctx.index, cls, fn
         self.naming = naming_values(ctx)
         self.env = local_assigns(fn)
+        # `a, b, c = <tuple-valued expression>` with every name bound once: name -> (value node, position)
+        self.unpacks = {}
+        counts = {}
+        for n in walk_no_nested(fn):
+            for t in (n.targets if isinstance(n, ast.Assign) else [n.target] if isinstance(n, (ast.AugAssign, ast.AnnAssign, ast.For)) else []):
+                for x in ast.walk(t):
+                    if isinstance(x, ast.Name):
+                        counts[x.id] = counts.get(x.id, 0) + 1
+        for n in walk_no_nested(fn):
+            if isinstance(n, ast.Assign) and len(n.targets) == 1 and isinstance(n.targets[0], (ast.Tuple, ast.List)) and \
+                    all(isinstance(x, ast.Name) for x in n.targets[0].elts):
+                for i, x in enumerate(n.targets[0].elts):
+                    if counts.get(x.id) == 1:
+                        self.unpacks[x.id] = (n.value, i, len(n.targets[0].elts))
+
+    def _unpacked(self, e, depth=0):
+        """A local bound once by tuple unpacking from a resolvable sequence -> the element expression, else e."""
+        while isinstance(e, ast.Name) and e.id in self.unpacks and e.id not in self.env and depth < 5:
+            v, i, n = self.unpacks[e.id]
+            s = self.seq(v, depth + 1)
+            if s is None or len(s) != n:
+                return e
+            e = deref(s[i], self.env)
+            depth += 1
+        return e
 
     def atom(self, e):
         """-> string value of a C identifier expression, or None."""
-        e = deref(e, self.env)
+        e = self._unpacked(deref(e, self.env))
         if isinstance(e, ast.Constant) and isinstance(e.value, str):
             return e.value
         if isinstance(e, ast.Attribute) and isinstance(e.value, ast.Name) and e.value.id == 'Naming':
@@ -309,6 +334,103 @@ def self_call(n, names=None):
     return None
 
 
+# ------------------------------------------------------------------------------------------------ helper inlining
+class _Subst(ast.NodeTransformer):
+    def __init__(self, mapping):
+        self.mapping = mapping
+
+    def visit_Name(self, n):
+        if n.id in self.mapping:
+            m = self.mapping[n.id]
+            if isinstance(m, str):
+                return ast.copy_location(ast.Name(id=m, ctx=n.ctx), n)
+            if isinstance(n.ctx, ast.Load):
+                return ast.copy_location(ast.parse(ast.unparse(m), mode='eval').body, n)
+        return n
+
+
+PROTOCOL_METHODS = ('fetch_parallel_exception', 'restore_parallel_exception', 'trap_parallel_exit', 'end_parallel_control_flow_block',
+                    'setup_parallel_control_flow_block', 'restore_labels', 'begin_parallel_block', 'end_parallel_block', 'privatize_temps')
+
+
+def inline_helpers(ctx, cls, fn, needles, depth=0, skip=PROTOCOL_METHODS):
+    """Copy of fn in which every statement `self.<helper>(<simple arguments>)` whose helper (a method of the class family that mentions one
+    of the needles and has no return statement) is replaced by the helper's body, parameters substituted by the arguments and helper locals
+    renamed.  A behaviour-preserving `extract method` on the analysed code is undone this way; anything else is left as the call."""
+    ix = ctx.index
+    if depth > 2:
+        return fn
+
+    def simple(e):
+        return isinstance(e, (ast.Name, ast.Constant)) or (isinstance(e, ast.Attribute) and simple(e.value))
+
+    def expand(stmts):
+        out, changed = [], False
+        for s in stmts:
+            c = s.value if isinstance(s, ast.Expr) else None
+            name = self_call(c) if c is not None else None
+            helper = None
+            if name and name != fn.name and name not in skip and not any(isinstance(a, ast.Starred) for a in c.args) and all(k.arg for k in c.keywords):
+                r = ix.find_method(cls, name)
+                if r is not None:
+                    h = r[1]
+                    src = ast.unparse(h)
+                    if any(x in src for x in needles) and not any(isinstance(x, (ast.Return, ast.Yield, ast.YieldFrom)) for x in walk_no_nested(h)) \
+                            and not h.args.vararg and not h.args.kwarg and all(simple(a) for a in c.args) and all(simple(k.value) for k in c.keywords):
+                        helper = h
+            if helper is not None:
+                params = [a.arg for a in helper.args.posonlyargs + helper.args.args][1:]
+                defaults = dict(zip(params[len(params) - len(helper.args.defaults):], helper.args.defaults))
+                bound = dict(zip(params, c.args))
+                bound.update({k.arg: k.value for k in c.keywords})
+                for p_, d in defaults.items():
+                    bound.setdefault(p_, d)
+                assigned = {x.id for n_ in walk_no_nested(helper) for x in ast.walk(n_) if isinstance(x, ast.Name) and isinstance(x.ctx, ast.Store)}
+                if len(c.args) <= len(params) and set(bound) == set(params) and not (assigned & set(params)):
+                    mapping = dict(bound)
+                    mapping.update({a: '%s__%s' % (a, helper.name) for a in assigned})
+                    inner = inline_helpers(ctx, cls, helper, needles, depth + 1, skip)
+                    body = [_Subst(mapping).visit(ast.parse(ast.unparse(b)).body[0]) for b in inner.body
+                            if not (isinstance(b, ast.Expr) and isinstance(b.value, ast.Constant))]
+                    for b in body:
+                        for x in ast.walk(b):
+                            if hasattr(x, 'lineno'):
+                                x.lineno = getattr(x, 'lineno', 0) + helper.lineno - 1
+                    out.extend(body or [ast.copy_location(ast.Pass(), s)])
+                    changed = True
+                    continue
+            for field in ('body', 'orelse', 'finalbody'):
+                sub = getattr(s, field, None)
+                if isinstance(sub, list) and sub and isinstance(sub[0], ast.stmt):
+                    new, ch = expand(sub)
+                    if ch:
+                        setattr(s, field, new)
+                        changed = True
+            for hnd in getattr(s, 'handlers', []) or []:
+                new, ch = expand(hnd.body)
+                if ch:
+                    hnd.body = new
+                    changed = True
+            out.append(s)
+        return out, changed
+
+    src = ast.unparse(fn)
+    if 'self.' not in src:
+        return fn
+    copy = ast.parse(src).body[0]
+    # keep the original line numbers where the shapes agree (ast.unparse/parse preserves the statement structure)
+    for a, b in zip(ast.walk(copy), ast.walk(fn)):
+        if type(a) is type(b) and hasattr(b, 'lineno'):
+            a.lineno, a.col_offset = b.lineno, b.col_offset
+            a.end_lineno, a.end_col_offset = getattr(b, 'end_lineno', b.lineno), getattr(b, 'end_col_offset', 0)
+    new, changed = expand(copy.body)
+    if not changed:
+        return fn
+    copy.body = new
+    ast.fix_missing_locations(copy)
+    return copy
+
+
 # ------------------------------------------------------------------------------------------------ C37-WHY
 CMP = {'<': lambda a, b: a < b, '<=': lambda a, b: a <= b, '>': lambda a, b: a > b, '>=': lambda a, b: a >= b,
        '==': lambda a, b: a == b, '!=': lambda a, b: a != b}
@@ -318,6 +440,7 @@ def writer_codes(ctx, psn, fn=None):
     """trap_parallel_exit: kind -> exit code stored into parallel_why, plus the enumerate loop and details."""
     ix = ctx.index
     owner, fn = (psn, fn) if fn is not None else method(ix, psn, 'trap_parallel_exit')
+    fn = inline_helpers(ctx, psn, fn, ('parallel_why', 'parallel_exc'))
     res = Res(ctx, psn, fn)
     why = res.naming['parallel_why']
     loops = []
@@ -573,6 +696,11 @@ def rule_why(ctx):
     guards_found = []
     for cls in [psn] + ix.subclasses(psn):
         for name, fn in cls.methods.items():
+            # a guard protects the loop body / else clause generated by the same method; a comparison of the exit code elsewhere (e.g. the
+            # `if (why != 0)` around the dispatch switch) has a different obligation, decided by C37-SEQ place:dispatch
+            if not any(isinstance(x, ast.Call) and isinstance(x.func, ast.Attribute) and x.func.attr == 'generate_execution_code' and is_self_attr(x.func.value)
+                       and x.func.value.attr in ('body', 'else_clause') for x in walk_no_nested(fn)):
+                continue
             rs = Res(ctx, cls, fn)
             for call, recv, text, ph in emissions(rs, fn):
                 for m in re.finditer(r'\bif\s*\(\s*' + re.escape(why) + r'\s*(<=|>=|==|!=|<|>)\s*(-?\d+)\s*\)', text):
@@ -859,28 +987,83 @@ def handoff_events(ctx, cls, fn):
     """Linear event list of a straight-line hand-off method: ('open'|'close', what, node), ('text', text, node),
     ('ref', 'gotref'|'giveref', cname, node).  Raises AnalysisError when the method is no longer straight-line."""
     res = Res(ctx, cls, fn)
-    for s in fn.body:
-        if isinstance(s, (ast.If, ast.For, ast.While, ast.Try, ast.With)):
-            return None, res
+    body = _unroll_static_loops(res, fn.body)
+    if body is None:
+        return None, res
     ev = []
-    for s in fn.body:
-        for c in pyflow.calls_in(s):
-            if not isinstance(c.func, ast.Attribute):
-                continue
-            a = c.func.attr
-            for op, cl, what in PAIRS:
-                if a == op:
-                    ev.append(('open', what, c))
-                elif a == cl:
-                    ev.append(('close', what, c))
-            ec = emit_call(c)
-            if ec is not None:
-                t = res.template(ec[1])
-                if t is not None:
-                    ev.append(('text', t[0], c))
-            if a in ('put_gotref', 'put_xgotref', 'put_giveref', 'put_xgiveref') and c.args:
-                ev.append(('ref', 'gotref' if 'gotref' in a else 'giveref', res.atom(c.args[0]), c))
+    for s, bind in body:
+        saved = dict(res.env)
+        res.env.update({k: [v] for k, v in bind.items()})
+        try:
+            _handoff_stmt(res, s, ev)
+        finally:
+            res.env.clear()
+            res.env.update(saved)
     return ev, res
+
+
+def _unroll_static_loops(res, stmts, bind=None, depth=0):
+    """Straight-line statement list with `for <names> in <sequence known at analysis time>` loops unrolled:
+    [(statement, {loop variable: element expression})], or None when other control flow is met."""
+    out = []
+    bind = bind or {}
+    for s in stmts:
+        if isinstance(s, ast.For) and not s.orelse and depth < 3:
+            saved = dict(res.env)
+            res.env.update({k: [v] for k, v in bind.items()})
+            try:
+                rows = _static_rows(res, s.iter)
+            finally:
+                res.env.clear()
+                res.env.update(saved)
+            tgts = [s.target] if isinstance(s.target, ast.Name) else list(s.target.elts) if isinstance(s.target, (ast.Tuple, ast.List)) else None
+            if rows is None or tgts is None or not all(isinstance(t, ast.Name) for t in tgts) or any(len(r) != len(tgts) for r in rows):
+                return None
+            if any(isinstance(x, (ast.Break, ast.Continue, ast.Return)) for b in s.body for x in ast.walk(b)):
+                return None
+            for row in rows:
+                b2 = dict(bind)
+                b2.update({t.id: e for t, e in zip(tgts, row)})
+                sub = _unroll_static_loops(res, s.body, b2, depth + 1)
+                if sub is None:
+                    return None
+                out.extend(sub)
+        elif isinstance(s, (ast.If, ast.For, ast.While, ast.Try, ast.With)):
+            return None
+        else:
+            out.append((s, bind))
+    return out
+
+
+def _static_rows(res, it):
+    """Rows of element expressions a for loop iterates over: a resolvable tuple, or zip() of resolvable tuples."""
+    if isinstance(it, ast.Call) and isinstance(it.func, ast.Name) and it.func.id == 'zip' and it.args and not it.keywords:
+        cols = [res.seq(a) for a in it.args]
+        if any(c is None for c in cols):
+            return None
+        return [list(r) for r in zip(*cols)]
+    s = res.seq(it)
+    return None if s is None else [[e] for e in s]
+
+
+def _handoff_stmt(res, s, ev):
+    """Events of one straight-line statement of a hand-off method (appended to ev)."""
+    for c in pyflow.calls_in(s):
+        if not isinstance(c.func, ast.Attribute):
+            continue
+        a = c.func.attr
+        for op, cl, what in PAIRS:
+            if a == op:
+                ev.append(('open', what, c))
+            elif a == cl:
+                ev.append(('close', what, c))
+        ec = emit_call(c)
+        if ec is not None:
+            t = res.template(ec[1])
+            if t is not None:
+                ev.append(('text', t[0], c))
+        if a in ('put_gotref', 'put_xgotref', 'put_giveref', 'put_xgiveref') and c.args:
+            ev.append(('ref', 'gotref' if 'gotref' in a else 'giveref', res.atom(c.args[0]), c))
 
 
 def check_handoff(ev, op_re, exc_names, guard_required):
@@ -1113,48 +1296,26 @@ def rule_reductions(ctx):
     ix = ctx.index
     r = Rule('C37-RED', 'in-place operators that ParallelRangeNode turns into `reduction(op:var)` clauses are implicitly declared OpenMP reduction identifiers', floor=5)
     prn = ix.cls('Nodes', 'ParallelRangeNode')
+    # which in-place operators become a reduction clause is read off the decision table of generate_loop (interpreted per operator in
+    # sa/rules/sC37.clause_table), not off the spelling of the guard around the emission
+    from . import sC37
+    _, gfn = method(ix, prn, 'generate_loop')
     found = 0
-    for cls in [prn] + ix.subclasses(prn):
-        for name, fn in cls.methods.items():
-            res = Res(ctx, cls, fn)
-            for stmts, guards in stmt_lists(fn):
-                for s in stmts:
-                    if isinstance(s, (ast.If, ast.For, ast.While, ast.With, ast.Try)):
-                        continue
-                    for c in pyflow.calls_in(s):
-                        ec = emit_call(c)
-                        if ec is None:
-                            continue
-                        t = res.template(ec[1])
-                        if t is None or not re.search(r'\breduction\s*\(\s*\xa7\s*:', t[0]):
-                            continue
-                        opvar = t[1][0]
-                        if not isinstance(opvar, ast.Name):
-                            raise AnalysisError('%s.%s: reduction operator is not a plain name' % (cls.name, name))
-                        # the set of operators admitted by the enclosing guards: `op in "<chars>"` / `op in (...)`
-                        ops = None
-                        for node, br in guards:
-                            for x in ast.walk(node.test):
-                                if isinstance(x, ast.Compare) and len(x.ops) == 1 and isinstance(x.ops[0], ast.In) and isinstance(x.left, ast.Name) \
-                                        and x.left.id == opvar.id and br:
-                                    v = tables.literal(x.comparators[0])
-                                    if isinstance(v, str):
-                                        ops = set(v)
-                                    elif isinstance(v, (tuple, list, set)):
-                                        ops = set(v)
-                        if ops is None:
-                            raise AnalysisError('%s.%s: cannot see which operators reach the reduction clause' % (cls.name, name))
-                        found += 1
-                        for op in sorted(ops):
-                            key = 'red:%s' % op
-                            r.inst(key, sample='in-place operator %r -> reduction(%s:var)' % (op, op))
-                            if op not in OPENMP_REDUCTION_IDS:
-                                r.violate(key, cls.module.rel, c.lineno,
-                                          '%s.%s emits `reduction(%s:var)` for the in-place operator %r, which is not an OpenMP reduction identifier: the generated C '
-                                          'does not compile with OpenMP enabled' % (cls.name, name, op, op))
-                            elif op not in SEQUENTIAL_SAFE:
-                                r.violate(key, cls.module.rel, c.lineno,
-                                          '%s.%s maps the Python in-place operator %r to the OpenMP reduction %r, whose combiner is not that operator' % (cls.name, name, op, op))
+    reducing = sC37.reduction_ops(ctx, prn)
+    for op in sC37.INPLACE_OPS:
+        found += 1
+        key = 'red:%s' % op
+        if op not in reducing:
+            r.inst(key, sample='in-place operator %r -> no reduction clause' % op, nontrivial=False)
+            continue
+        r.inst(key, sample='in-place operator %r -> reduction(%s:var)' % (op, op))
+        if op not in OPENMP_REDUCTION_IDS:
+            r.violate(key, prn.module.rel, gfn.lineno,
+                      'ParallelRangeNode.generate_loop emits `reduction(%s:var)` for the in-place operator %r, which is not an OpenMP reduction identifier: the generated C '
+                      'does not compile with OpenMP enabled' % (op, op))
+        elif op not in SEQUENTIAL_SAFE:
+            r.violate(key, prn.module.rel, gfn.lineno,
+                      'ParallelRangeNode.generate_loop maps the Python in-place operator %r to the OpenMP reduction %r, whose combiner is not that operator' % (op, op))
     if not found:
         raise AnalysisError('no `reduction(op:var)` emission found in ParallelRangeNode')
     r.positive_control('/' not in OPENMP_REDUCTION_IDS, 'division is not a reduction identifier')
